@@ -422,6 +422,54 @@ func (s *Sched) RUnlock(m *sync.RWMutex) {
 }
 
 //go:norace
+func (s *Sched) TryLock(m *sync.Mutex) bool {
+	if s.aborted {
+		return m.TryLock()
+	}
+	s.Yield()
+	if s.rec(m).owner != nil {
+		return false
+	}
+	s.rec(m).owner = s.cur
+	if !m.TryLock() {
+		panic(&HarnessError{Msg: "a lock that is free in the simulation is held for real"})
+	}
+	return true
+}
+
+//go:norace
+func (s *Sched) RWTryLock(m *sync.RWMutex) bool {
+	if s.aborted {
+		return m.TryLock()
+	}
+	s.Yield()
+	if r := s.rec(m); r.owner != nil || r.readers > 0 {
+		return false
+	}
+	s.rec(m).owner = s.cur
+	if !m.TryLock() {
+		panic(&HarnessError{Msg: "a lock that is free in the simulation is held for real"})
+	}
+	return true
+}
+
+//go:norace
+func (s *Sched) TryRLock(m *sync.RWMutex) bool {
+	if s.aborted {
+		return m.TryRLock()
+	}
+	s.Yield()
+	if s.rec(m).owner != nil {
+		return false
+	}
+	s.rec(m).readers++
+	if !m.TryRLock() {
+		panic(&HarnessError{Msg: "a lock that is free in the simulation is held for real"})
+	}
+	return true
+}
+
+//go:norace
 func (s *Sched) Go(f func()) {
 	if s.aborted {
 		return
